@@ -412,17 +412,35 @@ func (c *fsCache) set(key string, entry []byte) error {
 	if err := c.root.MkdirAll(filepath.Dir(name), 0o755); err != nil {
 		return err
 	}
-	f, err := c.root.Create(name)
+	// Write a temporary file in the same directory and rename it over the
+	// target, so that a concurrent Get — or a Get after a failed write or a
+	// crash — sees the previous value or the complete new one, never an
+	// empty, partial or mixed file.
+	tmp := filepath.Join(filepath.Dir(name), tempFilePrefix+rand.Text())
+	f, err := c.root.OpenFile(tmp, os.O_WRONLY|os.O_CREATE|os.O_EXCL, 0o644)
 	if err != nil {
 		return err
 	}
-	defer f.Close()
 	_, err = f.Write(entry)
+	if err == nil {
+		err = f.Sync()
+	}
+	if cerr := f.Close(); err == nil {
+		err = cerr
+	}
+	if err == nil {
+		err = c.root.Rename(tmp, name)
+	}
 	if err != nil {
+		_ = c.root.Remove(tmp)
 		return err
 	}
-	return f.Sync()
+	return nil
 }
+
+// tempFilePrefix marks files that are being written; it cannot start the
+// name of an entry (not in the base64url alphabet) and is skipped by Keys.
+const tempFilePrefix = ".tmp-"
 
 func (c *fsCache) Delete(key string) error {
 	ctx, cancel := context.WithTimeout(context.Background(), c.timeout)
@@ -493,6 +511,9 @@ func (c *fsCache) keys(prefix string) ([]string, error) {
 		}
 		if d.IsDir() {
 			return nil
+		}
+		if strings.HasPrefix(d.Name(), tempFilePrefix) {
+			return nil // left behind by an interrupted Set
 		}
 		key, err := c.fnk.KeyFromFileName(
 			strings.TrimPrefix(path, dirname+string(os.PathSeparator)),
